@@ -954,8 +954,10 @@ static char *create_output_name(const char *fname, const char *dir,
 static int can_write(char *name) {
     struct stat st_buf;
 
-    /* if file does not exist, always write */
-    if (stat(name, &st_buf) != 0) return 1;
+    /* if file does not exist, always write. a symlink is something that
+     * exists, whether or not its target does: it has to be unlinked below,
+     * otherwise fopen() would create the file the link points to */
+    if (lstat(name, &st_buf) != 0) return 1;
 
     /* if "-n" is set (no overwrite), always skip */
     if (args.no_overwrite) return 0;
